@@ -1039,6 +1039,8 @@ class Interp:
     st_Nonlocal = st_Global
 
     def st_Delete(self, fr, st, store, out):
+        if any(isinstance(t, ast.Subscript) for t in st.targets):
+            store.facts = frozenset(f for f in store.facts if f[0] != 'in')
         out.next.append(store)
 
     def st_TypeAlias(self, fr, st, store, out):
@@ -2252,6 +2254,8 @@ class Interp:
             ov = self.eval(fr, target.value)
             self.store_attr(fr, ov, target.attr, val, node)
         elif isinstance(target, ast.Subscript):
+            # what was known about elements at fixed positions is no longer known
+            fr.store.facts = frozenset(f for f in fr.store.facts if not self.mentions_sub(f))
             self.assign_subscript(fr, target, val, node)
         elif isinstance(target, ast.Starred):
             self.assign(fr, target.value, val, node)
@@ -3255,6 +3259,8 @@ class Interp:
             return self.slice_of(fr, v, lo, hi, node)
         idx = self.eval(fr, node.slice)
         r = self.index_of(fr, v, idx, node)
+        if isinstance(node.ctx, ast.Load):
+            self.key_lookup(fr, node, v, idx)
         if isinstance(node.slice, ast.Name) and not isinstance(node.ctx, ast.Store):
             # items[i] with a running index: the element read here is one specific element (like the target of a for loop)
             tag = ('sub',) + pos_of(node)
@@ -3269,6 +3275,26 @@ class Interp:
             if hit:
                 fr.local_tags.add(tag)
         return r
+
+    def key_lookup(self, fr, node, v, idx):
+        """table[key] where key is a token the user wrote and the table is not known to hold it: KeyError.  (Keys read back
+        from fields of items - mnemonics, directive names - were selected by the parser against the same tables: not judged.)"""
+        dicts = [a for a in v if a[0] in ('dict', 'kdict')]
+        if not dicts or len(dicts) != len(v):
+            return
+        toks = [x for x in idx if x[0] == 'tok']
+        if not toks:
+            return
+        for a in dicts:
+            if a[0] == 'kdict':
+                keys = {kk[2] for kk, _ in a[1] if kk[1] == 'str'}
+                if all(x[2] == 0 and x[1] is not None and set(x[1]) <= keys for x in toks):
+                    continue        # the head of a token list that was selected among these keys
+            ks, ts = self.sym_of(fr, node.slice), self.sym_of(fr, node.value)
+            if ks is not None and ts is not None and ('in', ks, ts) in fr.store.facts:
+                return              # `key in table` holds on every path to here
+            self.library_raise(fr, 'KeyError', node)
+            return
 
     @staticmethod
     def mark_moved(val):
@@ -3539,6 +3565,40 @@ class Interp:
     def cond(self, fr, test, store, refine=True, value=None):
         """(may be true, store if true, may be false, store if false); the two stores are distinct objects when both are
         possible and refinement is on"""
+        fact = None
+        if value is None and refine and isinstance(test, ast.Compare) and len(test.ops) == 1 and isinstance(test.ops[0], (ast.In, ast.NotIn)):
+            # `key in table`: remembered for table[key] on the side where it holds
+            fr.store = store
+            keep = list(fr.pending)
+            try:
+                fact = self.member_fact(fr, test.left, test.comparators[0])
+            finally:
+                fr.pending = keep
+        r = self.cond_inner(fr, test, store, refine, value)
+        if fact is not None:
+            ct, s_t, cf, s_f = r
+            if s_t is s_f:
+                s_f = s_t.copy()
+            side = s_t if isinstance(test.ops[0], ast.In) else s_f
+            side.facts = side.facts | {fact}
+            r = (ct, s_t, cf, s_f)
+        return r
+
+    def member_fact(self, fr, key, table):
+        if not isinstance(table, (ast.Name, ast.Attribute)):
+            return None
+        try:
+            tv = self.eval(fr, table)
+        except (AnalysisError, Unreachable):
+            return None
+        if not tv or not all(a[0] in ('dict', 'kdict') for a in tv):
+            return None
+        ks, ts = self.sym_or_make(fr, key), self.sym_or_make(fr, table)
+        if ks is None or ts is None:
+            return None
+        return ('in', ks, ts)
+
+    def cond_inner(self, fr, test, store, refine=True, value=None):
         fr.store = store
         if isinstance(test, ast.BoolOp) and value is None:
             is_and = isinstance(test.op, ast.And)
@@ -3916,6 +3976,13 @@ class Interp:
                 v = fr.store.vars.get(expr.value.id)
                 if v and any(a[0] == 'toks' for a in v):
                     return ('headof', expr.value.id, fr.fid)
+        if isinstance(expr, ast.Subscript) and isinstance(expr.slice, ast.Constant) and type(expr.slice.value) is int \
+                and isinstance(expr.value, (ast.Name, ast.Attribute)):
+            # item.args[1]: the element at a fixed position of a value that has an identity (facts about it die with that identity,
+            # and with any store through a subscript)
+            s_ = self.sym_of(fr, expr.value)
+            if isinstance(s_, tuple) and s_ and s_[0] in ('fld', 'val'):
+                return ('sub', s_, expr.slice.value)
         return None
 
     def sym_or_make(self, fr, expr):
@@ -3923,7 +3990,7 @@ class Interp:
         if s_ is None and isinstance(expr, ast.Name) and fr.scope is not None and self.owner_frame(fr, expr.id) is fr:
             s_ = ('val', fr.fid, expr.id) + pos_of(expr)
             fr.store.syms[expr.id] = s_
-        return s_ if (isinstance(s_, tuple) and s_ and s_[0] in ('val', 'fld')) else None
+        return s_ if (isinstance(s_, tuple) and s_ and s_[0] in ('val', 'fld', 'sub')) else None
 
     def is_bounded(self, fr, expr):
         """was the value of this expression compared against program-chosen bounds on both sides on every path to here"""
@@ -4692,6 +4759,12 @@ class Interp:
         tin = set()
         for v in bound.values():
             tags_of(v, acc=tin)
+        for s_ in syms.values():
+            # a plain value read from a field of a tagged object: what the callee learns about it is about that object
+            while isinstance(s_, tuple) and s_ and s_[0] == 'sub':
+                s_ = s_[1]
+            if isinstance(s_, tuple) and s_ and s_[0] == 'fld':
+                tin.add(s_[1])
         if parent is not None:
             tin |= parent.valid_tags()
         facts_in = frozenset(f for f in fr.store.facts if self.fact_tags(f) <= tin)
@@ -4797,14 +4870,34 @@ class Interp:
                 return a
         return None
 
+    @staticmethod
+    def mentions_sub(fact):
+        def has(s):
+            return isinstance(s, tuple) and bool(s) and s[0] == 'sub'
+        if fact[0] in ('lb', 'ub'):
+            return has(fact[1])
+        if fact[0] == 'in':
+            return True         # the table may be the one stored into
+        if fact[0] == 'ok':
+            return any(has(s) for _, s in fact[2])
+        return False
+
     def fact_tags(self, fact):
         out = set()
-        if fact[0] in ('lb', 'ub') and isinstance(fact[1], tuple) and fact[1][0] == 'fld':
-            out.add(fact[1][1])
+
+        def of(s):
+            if isinstance(s, tuple) and s and s[0] == 'fld':
+                out.add(s[1])
+            elif isinstance(s, tuple) and s and s[0] == 'sub':
+                of(s[1])
+        if fact[0] in ('lb', 'ub'):
+            of(fact[1])
+        if fact[0] == 'in':
+            of(fact[1])
+            of(fact[2])
         if fact[0] == 'ok':
             for _, s in fact[2]:
-                if isinstance(s, tuple) and s and s[0] == 'fld':
-                    out.add(s[1])
+                of(s)
         return out
 
     def ok_fact(self, q, fnnode, bound, syms):
@@ -5209,7 +5302,7 @@ class Interp:
         xsym = args.syms.get(0)
         base = args.kw.get('base', args.pos[1] if len(args.pos) > 1 else av(const(10)))
         okf = None
-        if isinstance(xsym, tuple) and xsym and xsym[0] in ('val', 'fld') and len(base) == 1 and is_const(next(iter(base))):
+        if isinstance(xsym, tuple) and xsym and xsym[0] in ('val', 'fld', 'sub') and len(base) == 1 and is_const(next(iter(base))):
             okf = ('ok', 'int', (('base', next(iter(base))), ('x', xsym)))
         if raises and okf is not None and okf in fr.store.facts:
             # the same conversion of the same unchanged value already succeeded on every path to here
